@@ -328,3 +328,64 @@ fn c14_block_comment_ends_at_first_terminator_bounded() {
     }
     kani::cover!(n == 8 && was_ok);
 }
+
+// ---- TokenStream span bookkeeping through its API (C10 tiling), modular in the per-token lexer ------------------------------------
+// token_intermediate is replaced by "consume an arbitrary non-empty prefix, return one of a few token kinds" (its contract as far as
+// spans are concerned: the remainder is a strictly shorter suffix of the input - proved for the real lexer functions only piecewise);
+// the harness then reads up to three tokens through TokenStream::next and checks that the reported spans tile the input: first span
+// starts at the base location, each span starts where the previous one ended, is non-empty, and the stream ends exactly at the end.
+// BOUNDED: inputs of at most 6 bytes, 3 calls.  Paired with the unbounded Verus proof of TokenStream::next (unit token_stream),
+// it keeps deciding when `next` is rewritten with constructs Verus rejects.
+fn any_prefix_lexer(input: &[u8], _inside_include: bool) -> LexResult<'_, Token> {
+    let k: usize = kani::any();
+    kani::assume(1 <= k && k <= input.len());
+    let tok = match kani::any::<u8>() % 4 {
+        0 => Token::Whitespace,
+        1 => Token::Endline,
+        2 => Token::Comment,
+        _ => Token::Semicolon,
+    };
+    Ok((&input[k..], tok))
+}
+
+#[kani::proof]
+#[kani::unwind(8)]
+#[kani::stub(token_intermediate, any_prefix_lexer)]
+fn c10_token_stream_spans_tile_bounded() {
+    // the bytes matter to implementations that look at the text themselves (e.g. to fold indentation): a small alphabet
+    let bytes: &'static mut [u8; 6] = Box::leak(Box::new([b'a'; 6]));
+    let mut j = 0;
+    while j < 6 {
+        bytes[j] = match kani::any::<u8>() % 4 { 0 => b' ', 1 => b'\t', 2 => b'\n', _ => b'a' };
+        j += 1;
+    }
+    let text: &'static str = unsafe { std::str::from_utf8_unchecked(&bytes[..]) };
+    let n: usize = kani::any();
+    kani::assume(1 <= n && n <= 6);
+    let base: u32 = kani::any();
+    kani::assume(base < 1000);
+    let base_location = unsafe { std::mem::transmute::<u32, SourceLocation>(base) };
+    let mut stream = TokenStream::new(&text[..n], base_location).suppress_trailing_endline();
+    let mut expected_start = base;
+    let mut i = 0;
+    while i < 3 && !stream.end_of_stream() {
+        match stream.next(false) {
+            Ok(tok) => {
+                let (s, e) = (tok.get_location().get_raw(), tok.get_end_location().get_raw());
+                assert!(s == expected_start); // contiguous, in order
+                assert!(s < e); // every token covers at least one byte
+                assert!(e <= base + n as u32); // inside the file
+                expected_start = e;
+                std::mem::forget(tok);
+            }
+            Err(_) => assert!(false),
+        }
+        i += 1;
+    }
+    // the stream reports its end exactly when every byte has been covered
+    if stream.end_of_stream() {
+        assert!(expected_start == base + n as u32);
+    }
+    kani::cover!(i == 3);
+    kani::cover!(stream.end_of_stream());
+}
